@@ -14,10 +14,12 @@
                    range checks "x <= 0" / "hi <= lo" / "mode < lo" ... (a NaN passes);
                    geometric / negative binomial accept 0 <= p <= 1;
                    uniforms that go into a logarithm are used as delivered;
+                   DistPoisson uses the product algorithm for every rate;
        pv = false: radius 0 is rejected like radius >= 1; plain clamp;
                    range checks "not x > 0" ... (a NaN fails);
                    0 < p < 1;
-                   Distribution._next_open_float skips a uniform of exactly 0.0.
+                   Distribution._next_open_float skips a uniform of exactly 0.0;
+                   DistPoisson splits a rate above 500 into equal parts.
      What is NOT repaired is modelled as it is in both variants: an inner gamma
      draw that underflows to 0.0 (division by zero in Beta / Pearson), a product
      of uniforms that underflows, results beyond the double range.
@@ -504,6 +506,30 @@ Fixpoint poisson_loop (expl s : F) (x : Z) (us : list F) : res Z * list F :=
       if s' <=. expl then (Val (x + 1)%Z, r) else poisson_loop expl s' (x + 1)%Z r
   end.
 
+(* DistPoisson.draw (repaired tree): the product algorithm as it stands for
+   rates up to MAX_PRODUCT_RATE = 500; a larger rate - exp(-rate) is subnormal
+   from 708 and 0.0 from 745 - is split into n = floor(rate / 500) + 1 equal
+   parts and the draw is the sum of n product-algorithm draws with exp(-rate/n)
+   on the same stream (recursion on the number of parts).  The pinned tree uses
+   the product algorithm for every rate. *)
+Definition c500 : F := ofZ N 500.
+
+Fixpoint poisson_sum (k : nat) (expl : F) (x : Z) : M F Z :=
+  match k with
+  | O => ret x
+  | S k' => g <- poisson_loop expl one (-1)%Z ;; poisson_sum k' expl (x + g)%Z
+  end.
+
+Definition draw_poisson (pv : bool) (rate expl : F) : M F Z :=
+  if pv || (rate <=. c500) then poisson_loop expl one (-1)%Z
+  else
+    q <- lift (rate /. c500) ;;
+    fl <- lift (nfloor N q) ;;
+    let n := (fl + 1)%Z in
+    q2 <- lift ((-. rate) /. ofZ N n) ;;
+    e <- lift (nexp N q2) ;;
+    poisson_sum (Z.to_nat n) e 0%Z.
+
 Definition draw_triangular (lo mode hi : F) : M F F :=
   u <- next ;;
   fr <- lift ((mode -. lo) /. (hi -. lo)) ;;
@@ -557,7 +583,7 @@ Definition draw (pv : bool) (d : dist) (cache : option F) : M F (value F * optio
       fv (y1 <- draw_gamma pv (fst g1) (snd g1) ;;
           y2 <- draw_gamma pv (fst g2) (snd g2) ;;
           lift ((beta *. y1) /. y2)) cache
-  | DPoisson _ expl => iv (poisson_loop expl one (-1)%Z) cache
+  | DPoisson rate expl => iv (draw_poisson pv rate expl) cache
   | DTriangular lo mode hi => fv (draw_triangular lo mode hi) cache
   | DUniform lo hi => fv (u <- next ;; ret (lo +. (hi -. lo) *. u)) cache
   | DWeibull alpha beta =>
